@@ -233,6 +233,15 @@ def run(ctx):
                 ctx.violation("KIND", f"{fq.qualname} / KIND / self.{attr} rebound", ctx.where(fq, stt["node"]),
                               f"`{fq.module.line(stt['node'].lineno)}` rebinds the per-frame store")
 
+    # the two result stores are two dictionaries: one object bound to both names would make a stress solve fill `pressures` as well
+    sf_, sp_ = [e for e in si.stores("forces") if e.base == SELF and not e.sub], [e for e in si.stores("pressures") if e.base == SELF and not e.sub]
+    shared = [(a_, b_) for a_ in sf_ for b_ in sp_ if a_.node is b_.node]
+    if shared:
+        ctx.violation("KIND", f"{init.qualname} / KIND / forces and pressures are separate dictionaries", ctx.where(init, shared[0][0].node),
+                      f"`{init.module.line(shared[0][0].node.lineno)[:80]}` binds ONE dictionary to self.forces and self.pressures: solve_stress(t) makes pressures[t] non-None "
+                      f"and solve_pressure(t) overwrites forces[t]")
+    else:
+        ctx.ok("KIND", f"{init.qualname} / KIND / forces and pressures are separate dictionaries", ctx.where(init), "created by separate expressions")
     ctx.clause("solve_stress publishes frame t's result on frame t and refreshes its interfaces; solve_pressure assigns with the matrix' own cell->column map")
     fss = repo.func(f"{FS}.solve_stress")
     ss = sym.summarize(repo, fss.qualname)
